@@ -696,6 +696,62 @@ def falsy_states(thorough: bool) -> list[dict]:
     return out
 
 
+# ---- the same (function, id) registered several times at NON-adjacent positions
+DEDUP_ORDERS = sorted({p for ms in ('AAB', 'AAAB', 'AABB', 'AABC') for p in itertools.permutations(ms)})
+# kinds of the successive registrations of A (cycled); B and C take the first one / 'field'
+DEDUP_KINDS = {
+    'changing': [('update', 'update', 'update'), ('update', 'resume', 'update'), ('resume', 'update', 'resume'),
+                 ('create', 'resume', 'create'), ('resume_del', 'delete_opt', 'resume_del'), ('field', 'update', 'field')],
+    'watching': [('event', 'event', 'event')],
+    'indexing': [('index', 'index', 'index')],
+    'spawning': [('daemon', 'daemon', 'daemon'), ('timer', 'timer', 'timer'), ('daemon', 'timer', 'daemon')],
+}
+# who B is relative to A (fn 0, id 'a'): another function and id / another function under the SAME id / the same function
+# under ANOTHER id
+DEDUP_B = [(1, 'b'), (1, 'a'), (0, 'b')]
+
+
+def dedup_registry(order: tuple, kinds: tuple, b: tuple, cls: str) -> list[dict]:
+    out = []
+    na = 0
+    for x in order:
+        if x == 'A':
+            out.append(decl(kinds[na % len(kinds)], 'a', 0)); na += 1
+        elif x == 'B':
+            out.append(decl(kinds[0], b[1], b[0]))
+        else:
+            out.append(decl('field' if cls == 'changing' else kinds[0], 'c', 2))
+    return out
+
+
+def dedup_states(cls: str) -> list[dict]:
+    body = {'metadata': {'name': 'x'}, 'spec': {'f': 2, 'g': 0}}
+    if cls != 'changing':
+        return [state(cls, body)]
+    dbody = {'metadata': {'name': 'x', 'deletionTimestamp': '2020-01-01T00:00:00Z'}, 'spec': {'f': 2, 'g': 0}}
+    new, old = {'spec': {'f': 2, 'g': 0}}, {'spec': {'f': 1, 'g': 0}}
+    return [state(cls, body, reason='update', initial=True, old=old, new=new),      # changed while the operator was down
+            state(cls, body, reason='update', initial=False, old=old, new=new),
+            state(cls, body, reason='create', initial=True, old=None, new=new),
+            state(cls, body, reason='resume', initial=True, old=new, new=new),
+            state(cls, dbody, reason='delete', initial=True, old=new, new=new)]
+
+
+def e2e_dedup_jobs(thorough: bool) -> list[tuple[list[dict], dict, Any]]:
+    """Fresh object, real processing cycle: create / field / event handlers registered repeatedly, interleaved."""
+    body = {'apiVersion': 'kopf.dev/v1', 'kind': 'KopfExample',
+            'metadata': {'name': 'x', 'namespace': 'ns', 'uid': 'u1', 'resourceVersion': '5'}, 'spec': {'f': 1, 'g': 0}}
+    out = []
+    for kinds in [('create', 'create', 'create'), ('event', 'event', 'event'), ('create', 'field', 'create')]:
+        cls = KIND_CLASS[kinds[0]]
+        for order in (DEDUP_ORDERS if thorough else [o for o in DEDUP_ORDERS if len(o) == 3 or o in (tuple('ABAB'), tuple('ABCA'))]):
+            decls = dedup_registry(order, kinds, (1, 'b'), cls)
+            if any(d['kind'] == 'field' for d in decls):
+                decls = [dict(d, kind='create') if d['id'] == 'c' else d for d in decls]
+            out.append((decls, copy.deepcopy(body), 'ADDED'))
+    return out
+
+
 def gen_crit(r: Any, pool: list) -> Any:
     return copy.deepcopy(r.choice(pool))
 
@@ -722,7 +778,7 @@ def gen_decls(r: Any, cls: str) -> list[dict]:
             # the same function again: same id (dedup must apply), another field, or another kind (resume + create idiom)
             base = r.choice(out)
             d = copy.deepcopy(base)
-            how = r.randrange(3)
+            how = r.randrange(4)       # 0 and 3: the very same registration again, wherever the position falls
             if how == 1:
                 d['field'] = r.choice(R_FIELDS)
             elif how == 2:
@@ -858,7 +914,7 @@ class Sweep:
                                   expected=real_id(d), sig='handler-id')
         return out
 
-    def run_state(self, s: dict, monitor: bool = True, excluded: tuple[str, ...] = ()) -> None:
+    def run_state(self, s: dict, monitor: bool = True, excluded: tuple[str, ...] = (), only_get: bool = False) -> None:
         ctx = self.ctx
         cls = s['cls']
         ds = self.by_cls.get(cls)
@@ -881,13 +937,13 @@ class Sweep:
                                   diag=f'rids (get_handlers {excl} hs_{cls} {ccoq})'))
         ctx.count('get_handlers', f'{cls}:{kind}:{"none" if not ids else "some" if len(ids) < len(ds) else "all"}')
         pk = None
-        if cls == 'changing':
+        if cls == 'changing' and not only_get:
             pk, pb = canon.run_res(lambda: sub.prematch(cause))
             self.cases.append(fw.Case(f'rbool_eqb (registry_prematch hs_{cls} {ccoq}) {rbool_coq(pk, pb)}',
                                       {**data, 'call': 'prematch', 'outcome': pk, 'value': pb},
                                       diag=f'registry_prematch hs_{cls} {ccoq}'))
             ctx.count('prematch', f'{pk}:{pb}')
-        if cls in ('changing', 'spawning'):
+        if cls in ('changing', 'spawning') and not only_get:
             fk, fb = canon.run_res(lambda: sub.requires_finalizer(cause, excluded=frozenset(excluded)))
             self.cases.append(fw.Case(
                 f'rbool_eqb (requires_finalizer {cq.cbool(cls == "changing")} {excl} hs_{cls} {ccoq}) {rbool_coq(fk, fb)}',
@@ -1005,9 +1061,10 @@ def load_corpus() -> list[dict]:
     return out
 
 
-def run_case(ctx: fw.Ctx, decls: list[dict], s: dict, excluded: tuple[str, ...] = (), name: str = 'case') -> list[fw.Case]:
+def run_case(ctx: fw.Ctx, decls: list[dict], s: dict, excluded: tuple[str, ...] = (), name: str = 'case',
+             only_get: bool = False) -> list[fw.Case]:
     sw = Sweep(ctx, name, decls)
-    sw.run_state(s, excluded=excluded)
+    sw.run_state(s, excluded=excluded, only_get=only_get)
     # inline the registry into each term: every case has its own
     cases = []
     for c in sw.cases:
@@ -1104,6 +1161,22 @@ def run(ctx: fw.Ctx) -> int:
         for d in s_.decls:
             if n_criteria(d) and len(s_.verdicts.get(real_id(d), ())) == 2:
                 ctx.nontriv(['decl-varies', s_.name, d])
+
+    # ---------- bounded-exhaustive sweep 4: repeated registrations of one (function, id), all orders of small multisets ----------
+    dd: list[fw.Case] = []
+    for cls, kss in DEDUP_KINDS.items():
+        for ks in kss:
+            for b in DEDUP_B:
+                for order in DEDUP_ORDERS:
+                    decls = dedup_registry(order, ks, b, cls)
+                    for j, s in enumerate(dedup_states(cls)):
+                        if not ctx.thorough and cls == 'changing' and (j + len(order) + DEDUP_B.index(b)) % 2:
+                            continue
+                        dd += run_case(ctx, decls, s, name='dedup', only_get=True)
+                        ctx.count('dedup', f"{cls}:{''.join(order)}")
+    ctx.sample({'sweep': 'dedup', 'decls': dedup_registry(tuple('ABA'), DEDUP_KINDS['changing'][1], (1, 'b'), 'changing'),
+                'state': dedup_states('changing')[0]}, limit=8)
+    ctx.differential('dedup', HEADER, dd, shard=150)
 
     # ---------- random larger registries ----------
     n = ctx.scale(600, 8000)
@@ -1252,59 +1325,74 @@ def e2e_allowed(decls: list[dict], body: dict, raw_type: Any, old_counts: bool =
     return allowed
 
 
+def e2e_one(ctx: fw.Ctx, loop: Any, decls: list[dict], body: dict, raw_type: Any) -> dict | None:
+    """One real processing cycle of a fresh object + all end-to-end monitors. None if skipped."""
+    recorder: list = []
+    writes: list = []
+    real = Real(decls, recorder)
+    matched = spec_matched_by_any(decls, body)
+    spawning = any(KIND_CLASS[d['kind']] == 'spawning' for d in decls)
+    if matched and spawning:
+        ctx.count('e2e', 'skipped: matched with daemons/timers (tasks are not driven here)')
+        return None
+    loop.run_until_complete(asyncio.wait_for(_one_event(real, RES_KEX, raw_type, body, writes), 30))
+    after = _apply_writes(body, writes)
+    case = {'decls': decls, 'body': body, 'event': raw_type}
+    ctx.cov['traces_validated_against_impl'] += 1
+    calls = [x[0] for x in recorder]
+    if not matched:
+        ctx.count('e2e', 'unmatched' + (':stale-finalizer' if FINALIZER in body['metadata'].get('finalizers', []) else ''))
+        ctx.nontriv(['stealth', decls, body])
+        a0 = body['metadata'].get('annotations', {})
+        a1 = after.get('metadata', {}).get('annotations', {}) or {}
+        f0 = body['metadata'].get('finalizers', [])
+        f1 = after.get('metadata', {}).get('finalizers', []) or []
+        added_ann = sorted(k for k in a1 if k not in a0 or a1[k] != a0[k])
+        added_fin = sorted(x for x in f1 if x not in f0)
+        if added_ann or added_fin or recorder:
+            ctx.fail('an object matched by no handler was touched (annotation/finaliser added or a handler called)', case,
+                     observed={'writes': writes, 'annotations_added': added_ann, 'finalizers_added': added_fin,
+                               'called': calls}, expected='no annotation, no finaliser, no call', sig='stealth')
+        if any(k != 'metadata' for _, p in writes if isinstance(p, dict) for k in p):
+            ctx.fail('an object matched by no handler got a write outside metadata', case, observed=writes, sig='stealth')
+    else:
+        # a fresh (never handled) object, matched: which handlers may be called in this very cycle
+        ctx.count('e2e', 'matched')
+        by_fn = {d['fn']: d['id'] for d in decls}
+        called = sorted({by_fn.get(i, f'fn{i}') for i in calls})
+        allowed = e2e_allowed(decls, body, raw_type)
+        extra = [c for c in called if c not in allowed]
+        if extra:
+            ctx.fail('a handler whose declared criteria do not hold was invoked', case, observed=called,
+                     expected=sorted(allowed), sig='invoked')
+        # one function registered (however often, wherever in the registration order) under ONE id: at most one call per cause
+        one_id = {fn for fn in by_fn if len({real_id(d) for d in decls if d['fn'] == fn}) == 1}
+        twice = sorted(fn for fn in one_id if calls.count(fn) > 1)
+        if twice:
+            ctx.fail('one function registered under one id was invoked more than once for one cause', case,
+                     observed={'calls_in_order': calls}, expected={'at_most_once': twice}, sig='invoked-twice')
+        if called:
+            ctx.nontriv(['invoked', decls, body])
+        ctx.count('e2e_invoked', str(len(calls)))
+    return {'sweep': 'e2e', 'decls': decls, 'body': body, 'writes': writes, 'called': calls}
+
+
 def e2e(ctx: fw.Ctx, n: int) -> None:
     r = ctx.rng
     loop = asyncio.new_event_loop()
     try:
+        jobs = [(d, b, t) for d, b, t in e2e_dedup_jobs(ctx.thorough)]
         for i in range(n):
             decls, body = gen_e2e(r)
-            raw_type = r.choice([None, 'ADDED', 'MODIFIED'])
-            recorder: list = []
-            writes: list = []
-            real = Real(decls, recorder)
-            matched = spec_matched_by_any(decls, body)
-            spawning = any(KIND_CLASS[d['kind']] == 'spawning' for d in decls)
-            if matched and spawning:
-                ctx.count('e2e', 'skipped: matched with daemons/timers (tasks are not driven here)')
-                continue
+            jobs.append((decls, body, r.choice([None, 'ADDED', 'MODIFIED'])))
+        for i, (decls, body, raw_type) in enumerate(jobs):
             try:
-                loop.run_until_complete(asyncio.wait_for(_one_event(real, RES_KEX, raw_type, body, writes), 30))
+                res = e2e_one(ctx, loop, decls, body, raw_type)
             except Exception as e:      # the observation point is gone or the cycle fails: fail closed
                 ctx.correspondence_break('e2e:process_resource_event', {'error': repr(e)[:400], 'decls': decls, 'body': body})
                 return
-            after = _apply_writes(body, writes)
-            case = {'decls': decls, 'body': body, 'event': raw_type}
-            ctx.cov['traces_validated_against_impl'] += 1
-            if not matched:
-                ctx.count('e2e', 'unmatched' + (':stale-finalizer' if FINALIZER in body['metadata'].get('finalizers', []) else ''))
-                ctx.nontriv(['stealth', decls, body])
-                a0 = body['metadata'].get('annotations', {})
-                a1 = after.get('metadata', {}).get('annotations', {}) or {}
-                f0 = body['metadata'].get('finalizers', [])
-                f1 = after.get('metadata', {}).get('finalizers', []) or []
-                added_ann = sorted(k for k in a1 if k not in a0 or a1[k] != a0[k])
-                added_fin = sorted(x for x in f1 if x not in f0)
-                if added_ann or added_fin or recorder:
-                    ctx.fail('an object matched by no handler was touched (annotation/finaliser added or a handler called)', case,
-                             observed={'writes': writes, 'annotations_added': added_ann, 'finalizers_added': added_fin,
-                                       'called': [x[0] for x in recorder]}, expected='no annotation, no finaliser, no call',
-                             sig='stealth')
-                if any(k != 'metadata' for _, p in writes if isinstance(p, dict) for k in p):
-                    ctx.fail('an object matched by no handler got a write outside metadata', case, observed=writes, sig='stealth')
-            else:
-                # a fresh (never handled) object, matched: which handlers may be called in this very cycle
-                ctx.count('e2e', 'matched')
-                called = sorted({f'e{x[0]}' for x in recorder})
-                allowed = e2e_allowed(decls, body, raw_type)
-                extra = [c for c in called if c not in allowed]
-                if extra:
-                    ctx.fail('a handler whose declared criteria do not hold was invoked', case, observed=called,
-                             expected=sorted(allowed), sig='invoked')
-                if called:
-                    ctx.nontriv(['invoked', decls, body])
-                ctx.count('e2e_invoked', str(len(called)))
-            if i < 1:
-                ctx.sample({'sweep': 'e2e', 'decls': decls, 'body': body, 'writes': writes, 'called': [x[0] for x in recorder]})
+            if res is not None and i in (0, len(jobs) - n):
+                ctx.sample(res, limit=8)
     finally:
         loop.close()
 
@@ -1319,18 +1407,7 @@ def replay(ctx: fw.Ctx, body: dict) -> bool:
     elif 'body' in c and 'decls' in c:
         loop = asyncio.new_event_loop()
         try:
-            recorder: list = []
-            writes: list = []
-            real = Real(c['decls'], recorder)
-            loop.run_until_complete(_one_event(real, RES_KEX, c.get('event'), c['body'], writes))
-            after = _apply_writes(c['body'], writes)
-            if not spec_matched_by_any(c['decls'], c['body']):
-                a0 = c['body']['metadata'].get('annotations', {})
-                a1 = after.get('metadata', {}).get('annotations', {}) or {}
-                f0 = c['body']['metadata'].get('finalizers', [])
-                f1 = after.get('metadata', {}).get('finalizers', []) or []
-                if recorder or any(k not in a0 for k in a1) or any(x not in f0 for x in f1):
-                    ctx.fail('stealth', c, sig='stealth')
+            e2e_one(ctx, loop, c['decls'], c['body'], c.get('event'))
         finally:
             loop.close()
     return bool(ctx.failures)
